@@ -128,9 +128,21 @@ CHECKS.update({
   'note': 'The free list is an inductive structure and CBMC has no inductive predicates: capacity / chunk count are bounded (stated in each unit). Open known finding: malloc never fails (no heap '
           'end in this port): "inside the arena" holds only for requests that fit. Locks dropped (single-threaded semantics).'},
 })
+CHECKS.update({
+ 'C02': {
+  'text': 'Every member of igris::vector named by the property (push/emplace/insert/erase/pop/resize/reserve/clear, copy and move construction and assignment, ==, <, indexing, at) is extracted '
+          'mechanically to C at the abstract element type ELEM (in-object ghost lifetime state) and proved for a symbolic size and capacity: representation invariant VEC (slots below size live, '
+          'slots up to capacity raw), size and element sequence == std::vector\'s (reference semantics through ghost indices over the whole view), every construct/assign/destroy obeys the ELEM '
+          'protocol (nothing is assigned to, moved from or read while unconstructed or destroyed; every element destroyed exactly once: a released block holds no live element and no block is '
+          'leaked), all accesses inside exact-size blocks. Loops are closed by injected invariants; obligations are grouped bounds / lifetime / value / frame.',
+  'ref': 'C02', 'technique': 'cxx2c extraction + CBMC loop contracts; ghost element-lifetime protocol checked at an arbitrary tracked slot per block; allocator and std algorithm stubs with ISO contracts',
+  'note': 'NOT claimed: flat_map / flat_set / compat std map/set (std::find_if/upper_bound with capturing lambdas over std::vector<std::pair>: outside the extractor) and the second igris::vector '
+          'copy in std_portable.h. insert(pos,first,last) is a bounded stand-in (<= 1 element quick, 2 thorough) on top of the proved insert(pos,value); rbegin/rend are std::reverse_iterator '
+          '(trusted). Trusted: libstdc++ algorithm / allocator stubs (spec/c02_std_algo.h), cxx2c rules. Exceptions are outside the model (throw -> ghost flag).'},
+})
 WIP = 'no proof unit built yet in this session (work in progress; see DESIGN.md for the planned contracts)'
 NOT_APPLICABLE = {
- 'C02': WIP, 'C11': WIP,
+ 'C11': WIP,
  'C15': WIP, 'C19': WIP,
  'C09': 'quantifies over a family of C++ types assembled by template metaprogramming (partial specialisations, SFINAE, '
         'concepts, std::tuple/map/string, virtual archives); CBMC has no usable C++ front end and the mechanical C '
